@@ -112,7 +112,7 @@ fn classify_compile(item: &Item, res: &CaseResult) -> Option<String> {
     if f.has("id_var") && item.base.case.opts.normalization_rust && text.contains("`Id`") {
         return Some("id-variable-rust-normalization".into());
     }
-    if f.has("double_variant") && (codes.contains("E0124") || codes.contains("E0428")) {
+    if f.has("double_variant_sole_spread") && (codes.contains("E0124") || codes.contains("E0428")) {
         return Some("double-variant-selection-does-not-build".into());
     }
     None
@@ -350,9 +350,9 @@ pub fn run(report: &mut Report, replay: Option<&Value>) {
     {
         // D17: two selections for one variant type under an abstract parent
         let mut c = cfg.clone();
-        c.gen.fam_double_variant = true;
+        c.gen.fam_double_variant_sole_spread = true;
         let tapes = sample_tapes(report.seed, 0xC02D, n_probe * 2, 3072);
-        let items: Vec<Item> = tapes.iter().flat_map(|tp| build_items(tp, &c, &mut stats, &|_| false, false)).filter(|it| it.base.features.has("double_variant")).take(30).collect();
+        let items: Vec<Item> = tapes.iter().flat_map(|tp| build_items(tp, &c, &mut stats, &|_| false, false)).filter(|it| it.base.features.has("double_variant_sole_spread")).take(30).collect();
         report.count_extra("probe_cases_double-variant-selection-does-not-build", items.len() as u64);
         run_items(report, "c02", &items, &hooks);
     }
